@@ -52,6 +52,7 @@ type Config struct {
 	Batch   int    // commands per block
 	AsyncVotes bool // votes are verified concurrently (the production default) instead of synchronously
 	ActorReuseCmds bool // every other block of the actor re-proposes the commands of an earlier block
+	LoopCap   int  // capacity of every replica's event queue (0: 65536, so that nothing is ever dropped; the repository's wiring uses 100)
 	Latency   bool // every server has a latency matrix (all replicas at one location: zero delay), as experiments with locations have
 	ActorAuto bool // the actor behaves honestly by default (votes, collects, proposes); scripted actions are the deviations
 	ByView  []ViewSpec // optional Twins-style scenario: partitions (and leader) chosen by the SENDER's view, messages dropped at send time
@@ -336,7 +337,11 @@ func (cl *Cluster) wire(st *Stack) error {
 	}
 	st.Cfg = core.NewRuntimeConfig(st.ID, cl.keys[st.ID], opts...)
 	lg := kit.Logger(fmt.Sprintf("s%d", st.Idx))
-	st.EL = eventloop.New(lg, 1<<16)
+	lc := uint(1 << 16)
+	if cl.Cfg.LoopCap > 0 {
+		lc = uint(cl.Cfg.LoopCap)
+	}
+	st.EL = eventloop.New(lg, lc)
 	snd := &sender{st: st}
 	st.BC = blockchain.New(st.EL, lg, snd)
 	st.base = cl.newBase(st.Cfg)
